@@ -14,6 +14,8 @@ CONSTANTS
   HVals = {0}
   HMod = 2
   MaxSched = 2
+  FaultKinds = {}
+  Deviation = "none"
   MaxFired = 1
 INVARIANTS TypeOK EverySlotOfWindow OnlySlotsOfWindow JobOrder SignedOverObtainedRoot MembersIndependent AggregatorRuleExact
 CHECK_DEADLOCK FALSE
